@@ -251,6 +251,46 @@ theorem inflight_completed_by_acceptor (steps : List Step) {s : State} (hr : run
   · simp [init] at h
   · exact h
 
+/-- no step makes an in-flight request lose its context -/
+theorem Reach.ctxKept {s : State} (h : Reach s) : s.ctxLost = [] := by
+  induction h with
+  | init => rfl
+  | step st _ hs ih =>
+    obtain ⟨_, rfl⟩ := step?_some hs
+    cases st with
+    | cancelCtx g => simpa [eff, lostByCancel] using ih
+    | cb k g => cases k <;> exact ih
+    | _ => exact ih
+
+/-- **In-flight requests keep their context across the reload.**  In every run from the initial state —
+    every history of reloads, with the context of each replaced config cancelled right after its apps
+    were stopped (`cancelCtx`, while requests may still be in flight) — every accepted request is
+    completed by the config that accepted it or is still in flight, and none of them has had its own
+    context cancelled under it: a request's context descends from the server's base context, not from
+    the config's. (`Witness.request_context_from_config_context_fails`: with the other parent it does.) -/
+theorem inflight_completed_by_acceptor_with_live_context (steps : List Step) {s : State}
+    (hr : run init steps = some s) :
+    (∀ t g, (t, g) ∈ s.done → (t, g) ∈ acceptedOf steps) ∧
+    (∀ t g, (t, g) ∈ acceptedOf steps → (t, g) ∈ s.done ∨ (t, g) ∈ s.inflight) ∧
+    s.ctxLost = [] :=
+  ⟨(inflight_completed_by_acceptor steps hr).1, (inflight_completed_by_acceptor steps hr).2,
+   (Reach.init.run steps s hr).ctxKept⟩
+
+/-- what the model's "a request's context descends from the server's base context" rests on: no
+    http.Server of the HTTP app has a `BaseContext` (so the base is `context.Background()`), and every
+    `ConnContext` only wraps the context it is given (a value added in `(*App).start`, the registered
+    conn-context functions chained in `configureServer`) — none returns a context of its own, such as
+    the server's / config's `ctx`. In the notation of the regenerated fact `Gen.httpServerContextFields`. -/
+def requestContextParents : List String :=
+  ["app.go ConnContext: func returning context.WithValue(ctx,ConnCtxKey,c)",
+   "server.go server.ConnContext = func returning f(baseConnContextFunc(ctx,c),c)",
+   "server.go server.ConnContext = f"]
+
+/-- **request_context_parents_match_source**: regenerated from /repo on every run; a `BaseContext`, or a
+    `ConnContext` returning something else, breaks this obligation (second line of defence behind the
+    in-flight probes, which produce the failing input). -/
+theorem request_context_parents_match_source : Gen.httpServerContextFields = requestContextParents := by decide
+
 /-- a request can only be accepted by a config that has a listener open on the address -/
 theorem accepted_by_a_holder {s : State} {t : Nat} {g : Gen} {a : Addr}
     (he : enabled s (.accept t g a) = true) : g ∈ servers s a := by
@@ -535,6 +575,11 @@ example : ((run init (reloadSteps exOld none (.mk 2 0 1 0 0 0) ++
 example : ((run init (reloadSteps exOld none (.mk 2 0 1 0 0 0) ++ [.accept 7 0 exT0] ++
       reloadSteps exNew (some exOld) exSched ++ [.complete 7 0])).map fun s => (s.inflight, s.done))
     = some ([], [(7, 0)]) := by decide
+-- the old config's context is cancelled while the request is in flight: the request keeps its context
+example : ((run init (reloadSteps exOld none (.mk 2 0 1 0 0 0) ++ [.accept 7 0 exT0,
+      .begin exNew, .bind exU0, .bind exT0, .cb .started 1, .swap, .cb .stopping 0, .close 0 exT0, .close 0 exU0,
+      .cancelCtx 0, .cb .cleanup 0, .ret, .complete 7 0])).map fun s => (s.cancelled, s.ctxLost, s.done))
+    = some ([0], [], [(7, 0)]) := by decide
 -- … and it cannot be completed by the other config
 example : (run init (reloadSteps exOld none (.mk 2 0 1 0 0 0) ++ [.accept 7 0 exT0] ++
       reloadSteps exNew (some exOld) exSched ++ [.complete 7 1])).isNone = true := by decide
